@@ -415,7 +415,7 @@ def main(tier, seed, workers=None):
     run = Run(PROP, "exploration", tier, seed, RULE)
     run.assumptions = ["reference equality = same (name, ordered fields) and Python equality of field values by documented content (digest triple, "
                        "address objects, command executable/args/flavour); NaN is unequal to NaN"]
-    explore(run, cases(tier, seed), run_case, workers, chunk=8)
+    explore(run, cases(tier, seed), run_case, workers, chunk=8, reversed_pass=(tier == "thorough"))
     if run.state_hashes:
         run.extra["scope_machine_states"] = len(run.state_hashes)
         run.extra["scope_machine_transitions"] = run.extra.get("scope_events", 0)
